@@ -92,6 +92,13 @@ func c16Fixed() []c16Case {
 		{"nested-once-across-components", map[string]string{"p.vuego": `<template include="w.vuego"></template><template include="l.vuego"></template><template include="w.vuego"></template>`,
 			"w.vuego": `<div v-once><style v-once>M1</style><span>M2</span></div>`, "l.vuego": `<div v-once><style v-once>M3</style><span>M4</span></div>`}, "p.vuego", map[string]int{"M1": 1, "M2": 1, "M3": 1, "M4": 1}},
 		{"nested-once-three-deep", map[string]string{"p.vuego": `<div v-once><p v-once><b v-once>M1</b></p><p v-once><b v-once>M2</b></p></div>`}, "p.vuego", map[string]int{"M1": 1, "M2": 1}},
+		// a marked element whose OWN subtree reaches the same element again while it is still being rendered: through supplied slot content
+		// (frame in frame in frame) and through a component that includes itself from inside its marked root. The element is marked as
+		// rendered before its subtree is evaluated, so the inner instantiations are skipped.
+		{"self-nesting-through-slot", map[string]string{"p.vuego": `<template include="frame.vuego"><i>A</i><template include="frame.vuego"><i>B</i><template include="frame.vuego"><i>C</i></template></template></template><b>M2</b>`,
+			"frame.vuego": `<section v-once>M1<slot></slot></section>`}, "p.vuego", map[string]int{"M1": 1, "M2": 1}},
+		{"self-nesting-recursive-component", map[string]string{"p.vuego": `<template include="tree.vuego" :depth="2"></template><b>M2</b>`,
+			"tree.vuego": `<div v-once>M1<template v-if="depth > 0" include="tree.vuego" :depth="depth - 1"></template></div><u>M3</u>`}, "p.vuego", map[string]int{"M1": 1, "M2": 1, "M3": 2}}, // M3: the outer instance and the one included from it; the inner marked root is skipped, so nothing deeper is reached
 		{"loop-child", map[string]string{"p.vuego": `<ul><li v-for="x in items"><i v-once>M1</i><b>M2</b></li></ul>`}, "p.vuego", map[string]int{"M1": 1, "M2": 3}},
 		{"loop-child-two-distinct", map[string]string{"p.vuego": `<ul><li v-for="x in items"><i v-once>M1</i><b v-once>M2</b></li></ul>`}, "p.vuego", map[string]int{"M1": 1, "M2": 1}},
 		{"loop-root", map[string]string{"p.vuego": `<ul><li v-for="x in items" v-once>M1</li></ul>`}, "p.vuego", map[string]int{"M1": 1}},
